@@ -411,7 +411,13 @@ class Contract:
         if self.hook is not None:
             rs = self.hook(ex, st, bound)
         elif self.has_model:
-            rs = self.call_clause(ex, st, "model", bound)
+            rs = []
+            for cls, cond in self.raises.items():
+                if not cond:  # may be raised at any time (e.g. an overflow inside a library call)
+                    s_r = st.fork()
+                    s_r.ghost["raised_" + cls] = SV(mk_b(True), "bool")
+                    rs.append(ex.raise_(s_r, cls, None))
+            rs.extend(self.call_clause(ex, st, "model", bound))
         else:
             rs = self.apply_relational(ex, st, bound)
         for s, v in rs:
